@@ -33,6 +33,13 @@ structure TrFacts where
   versionCheck : String
   clientCompare : String
   serverCompare : String
+  /-- message types with `marshal` and `unmarshal`; those that keep the decoded bytes in `raw`
+  and return them from `marshal`; the types handed to `transcriptMsg`; assignments to a `raw`
+  field (and `setMessageSeq` calls, which drop it) outside the codec methods -/
+  codecTypes : List String
+  rawKept : List String
+  addedTypes : List String
+  rawResets : List String
 
 def tlcpTr : TrFacts :=
   { clientHSAdds := Facts.tlcp.trClientHSAdds, clientFullReads := Facts.tlcp.trClientFullReads,
@@ -51,7 +58,9 @@ def tlcpTr : TrFacts :=
     serverReadFinishedSumFirst := Facts.tlcp.trServerReadFinishedSumBeforeAdd,
     ccsGuards := Facts.tlcp.trCcsGuards, handshakeGuards := Facts.tlcp.trHandshakeGuards,
     versionCheck := Facts.tlcp.trVersionCheck, clientCompare := Facts.tlcp.trClientFinishedCompare,
-    serverCompare := Facts.tlcp.trServerFinishedCompare }
+    serverCompare := Facts.tlcp.trServerFinishedCompare,
+    codecTypes := Facts.tlcp.trMsgCodecTypes, rawKept := Facts.tlcp.trRawKeptTypes,
+    addedTypes := Facts.tlcp.trAddedTypes, rawResets := Facts.tlcp.trRawResets }
 
 def dtlcpTr : TrFacts :=
   { clientHSAdds := Facts.dtlcp.trClientHSAdds, clientFullReads := Facts.dtlcp.trClientFullReads,
@@ -70,11 +79,31 @@ def dtlcpTr : TrFacts :=
     serverReadFinishedSumFirst := Facts.dtlcp.trServerReadFinishedSumBeforeAdd,
     ccsGuards := Facts.dtlcp.trCcsGuards, handshakeGuards := Facts.dtlcp.trHandshakeGuards,
     versionCheck := Facts.dtlcp.trVersionCheck, clientCompare := Facts.dtlcp.trClientFinishedCompare,
-    serverCompare := Facts.dtlcp.trServerFinishedCompare }
+    serverCompare := Facts.dtlcp.trServerFinishedCompare,
+    codecTypes := Facts.dtlcp.trMsgCodecTypes, rawKept := Facts.dtlcp.trRawKeptTypes,
+    addedTypes := Facts.dtlcp.trAddedTypes, rawResets := Facts.dtlcp.trRawResets }
 
 /-- the documented text of the Finished comparison (length and content, constant time) -/
 def fullCompare (who : String) : String :=
   "len(verify) != len(" ++ who ++ ".verifyData) || subtle.ConstantTimeCompare(verify, " ++ who ++ ".verifyData) != 1"
+
+/-- the places where the source drops the cached encoding of a message it is about to SEND
+(datagram stack: the client's own hello is re-encoded with the cookie, and `setMessageSeq`
+stamps every outgoing message).  No received message is among them. -/
+def ownMessageResets : List String :=
+  ["Conn.clientHandshake:initialHello.raw", "Conn.clientHandshake:hello.setMessageSeq",
+   "Conn.clientHandshake:hello.raw", "Conn.serverHandshake:hvr.setMessageSeq",
+   "clientHandshakeState.doFullHandshake:certMsg.setMessageSeq",
+   "clientHandshakeState.doFullHandshake:ckx.setMessageSeq",
+   "clientHandshakeState.doFullHandshake:certVerify.setMessageSeq",
+   "clientHandshakeState.sendFinished:finished.setMessageSeq",
+   "serverHandshakeState.doFullHandshake:hs.hello.setMessageSeq",
+   "serverHandshakeState.doFullHandshake:certMsg.setMessageSeq",
+   "serverHandshakeState.doFullHandshake:skx.setMessageSeq",
+   "serverHandshakeState.doFullHandshake:certReq.setMessageSeq",
+   "serverHandshakeState.doFullHandshake:helloDone.setMessageSeq",
+   "serverHandshakeState.doResumeHandshake:hs.hello.setMessageSeq",
+   "serverHandshakeState.sendFinished:finished.setMessageSeq"]
 
 /-- the flags of the model, from the call lists.  The server reads the client's flight either
 with the hash (tlcp: `R:hash`) or with `nil` followed by `transcriptMsg` (dtlcp). -/
@@ -98,7 +127,10 @@ def flagsOf (t : TrFacts) : TFlags :=
     ccsNeedsExpect := t.ccsGuards.contains "!expectChangeCipherSpec",
     hsRefusedWhenCCSExpected := t.handshakeGuards.contains "len(data) == 0 || expectChangeCipherSpec",
     finFullCompare := t.clientCompare == fullCompare "serverFinished" && t.serverCompare == fullCompare "clientFinished",
-    versCheckedOnlyWhenHave := t.versionCheck == "c.haveVers && vers != c.vers" }
+    versCheckedOnlyWhenHave := t.versionCheck == "c.haveVers && vers != c.vers",
+    decodedKeepRaw := !t.addedTypes.isEmpty && t.addedTypes.all (fun ty => t.rawKept.contains ty && t.codecTypes.contains ty) &&
+      t.rawResets.all (ownMessageResets.contains ·),
+    sReadsViaMarshal := t.serverFullReads == [] }
 
 def tlcpFlags : TFlags := flagsOf tlcpTr
 def dtlcpFlags : TFlags := flagsOf dtlcpTr
